@@ -44,6 +44,18 @@ class Ctx:
             self._views[fi.qualname] = v
         return v
 
+    def callees(self, fi: FunctionInfo, node: ast.Call) -> List[FunctionInfo]:
+        """repo functions a call may reach, as resolved by the kind engine (all contexts)"""
+        idx = getattr(self, "_callee_index", None)
+        if idx is None:
+            idx = {}
+            for cf in self.interp.callfacts:
+                lst = idx.setdefault((cf.caller.qualname, id(cf.node)), [])
+                if cf.callee not in lst:
+                    lst.append(cf.callee)
+            self._callee_index = idx
+        return idx.get((fi.qualname, id(node)), [])
+
     def has(self, dotted: str) -> bool:
         return self.prog.has_func(dotted)
 
